@@ -120,6 +120,10 @@ class Reject(Exception):
     pass
 
 
+class Ambiguous(Exception):
+    """The documents do not say (or contradict the pinned behaviour) whether this input is well formed."""
+
+
 def detokenise_line(dialect, data):
     """Return (text_bytes, n_for, n_next, n_repeat, n_until) for a line body."""
     d = CANON[dialect]
@@ -171,6 +175,9 @@ def detokenise_line(dialect, data):
             continue
         kw = base.get(b)
         if kw is None:
+            if b == 0x7F:
+                # doc/bbcbasic.5 calls 0x7F invalid outside ARM/Mac, the pinned golden token map passes it through
+                raise Ambiguous("0x7F outside a string in a dialect other than ARM/Mac")
             raise Reject("unassigned token %02X" % b)
         out += kw
     return bytes(out), cnt[0xE3], cnt[0xED], cnt[0xF5], cnt[0xFD]
@@ -264,9 +271,6 @@ def crosscheck_golden(path):
                         bad.append("%s %s %02X: doc %r golden %r" % (d, nm, b, ext[intro].get(b), g))
     return bad
 
-
-class Ambiguous(Exception):
-    """The documents do not say whether this input is well formed."""
 
 
 def parse_program(dialect, data):
